@@ -9,6 +9,20 @@ using namespace Fastor; using namespace vp::vw;
 
 static const long BASE = 1000;
 
+// ------------------------------------------------------------------ further read routes of one view: a view is consumed through several evaluators
+// (flat SIMD eval<V>(i) by compound assignment and reductions, flat scalar tail, n-D teval by same-rank assignment, flat copy into a tensor of
+// another rank); every one of them has to deliver the selected elements.  mk() builds the view afresh for each consumer.
+template <class T, class OT, class MK>
+inline void routes(Ctx& c, MK mk, const T* parent, const std::vector<int>& offs, const std::string& d) {
+    if ((size_t)OT::size() != offs.size()) { c.fail("extents-mismatch", "size " + d); return; }
+    { scrub_stack(); OT o; o.zeros(); launder(o.data()); o += mk(); launder(o.data()); cmp_pick(c, o.data(), parent, offs, "o=0; o+=view", d, BASE); }
+    { scrub_stack(); OT o; o.fill(T(1)); launder(o.data()); o *= mk(); launder(o.data()); cmp_pick(c, o.data(), parent, offs, "o=1; o*=view", d, BASE); }
+    { scrub_stack(); OT o; o.zeros(); launder(o.data()); o += T(2) * mk() - mk(); launder(o.data()); cmp_pick(c, o.data(), parent, offs, "o=0; o+=2*view-view", d, BASE); }
+    { scrub_stack(); Tensor<T, OT::size()> o = mk(); launder(o.data()); cmp_pick(c, o.data(), parent, offs, "Tensor<T,size> flat=view", d, BASE); }
+    { scrub_stack(); T s = sum(mk()); T w = 0; for (int k : offs) w += parent[k]; ++c.compared; c.digest_add(&s, 1);
+      if (!num_eq(s, w)) { ++c.bad; if (c.mode.empty()) { c.mode = "wrong-element-selected"; c.first_bad = "sum(view) " + d + " got " + vstr(s) + " want " + vstr(w); } } }
+}
+
 // ------------------------------------------------------------------ dynamic 1-D views, runtime-exhaustive over all ranges of extent m
 template <class T, size_t N, size_t m>
 void read1d(Ctx& c) {
@@ -28,6 +42,8 @@ void read1d(Ctx& c) {
         { Tensor<T, m> o = A(sq) + B(sq2) * T(2); launder(o.data());
           for (size_t j = 0; j < m; ++j) want[j] = A.data()[offs[j]] + B.data()[offs2[j]] * T(2);
           for (size_t j = 0; j < m; ++j) { ++c.compared; if (!same_val(o.data()[j], want[j])) { ++c.bad; if (c.mode.empty()) { c.mode = "wrong-element-selected"; c.first_bad = "A(s)+B(s')*2 " + show(r) + " " + show(r2) + " element " + std::to_string(j); } } } }
+        routes<T, Tensor<T, m>>(c, [&]() { return A(sq); }, A.data(), offs, show(r));
+        if (k % 3 == 0) routes<T, Tensor<T, m>>(c, [&]() { return cA(sq); }, A.data(), offs, "const " + show(r));
         { Tensor<T, m> o; o = -A(sq); launder(o.data()); for (size_t j = 0; j < m; ++j) { ++c.compared; if (!same_val(o.data()[j], (T)(-A.data()[offs[j]]))) { ++c.bad; if (c.mode.empty()) { c.mode = "wrong-element-selected"; c.first_bad = "-A(s) " + show(r) + " element " + std::to_string(j); } } } }
         ++c.sub;
     }
@@ -66,6 +82,7 @@ void read2d(Ctx& c) {
         { Tensor<T, m, n> o = MA(s0, s1); launder(o.data()); cmp_pick(c, o.data(), A.data(), offs, "r=map(seq,seq)", d, BASE); }
         { Tensor<T, m, n> o = A(s0, s1) - B(s0, s1); launder(o.data());
           for (size_t j = 0; j < m * n; ++j) { ++c.compared; T w = A.data()[offs[j]] - B.data()[offs[j]]; if (!same_val(o.data()[j], w)) { ++c.bad; if (c.mode.empty()) { c.mode = "wrong-element-selected"; c.first_bad = "A(s,s)-B(s,s) " + d + " element " + std::to_string(j); } } } }
+        routes<T, Tensor<T, m, n>>(c, [&]() { return A(s0, s1); }, A.data(), offs, d);
         { Tensor<T, m, n> o; o = abs(A(s0, s1)); launder(o.data()); cmp_pick(c, o.data(), A.data(), offs, "abs(A(seq,seq))", d, BASE); }
         ++c.sub;
     }
@@ -99,6 +116,7 @@ struct ND<T, Index<D...>, Index<Mx...>> {
     static void one(Ctx& c, Tensor<T, D...>& A, Tensor<T, D...>& B, const std::vector<R1>& rs, const std::vector<int>& offs, std::index_sequence<I...>) {
         std::string d; for (auto& r : rs) d += show(r) + ",";
         { Tensor<T, Mx...> o = A(seq(opaque(rs[I].F), opaque(rs[I].L), opaque(rs[I].S))...); launder(o.data()); cmp_pick(c, o.data(), A.data(), offs, "r=A(seq...)", d, BASE); }
+        routes<T, Tensor<T, Mx...>>(c, [&]() { return A(seq(opaque(rs[I].F), opaque(rs[I].L), opaque(rs[I].S))...); }, A.data(), offs, d);
         { Tensor<T, Mx...> o = A(seq(rs[I].F, rs[I].L, rs[I].S)...) + B(seq(rs[I].F, rs[I].L, rs[I].S)...); launder(o.data());
           for (size_t j = 0; j < offs.size(); ++j) { ++c.compared; T w = A.data()[offs[j]] + B.data()[offs[j]]; if (!same_val(o.data()[j], w)) { ++c.bad; if (c.mode.empty()) { c.mode = "wrong-element-selected"; c.first_bad = "A(s...)+B(s...) " + d + " element " + std::to_string(j); } } } }
     }
@@ -150,6 +168,8 @@ struct FIX<T, Index<D...>, Fs...> {
         { scrub_stack(); auto o = evaluate(cA(fseq<Fs::f, Fs::l, Fs::s>()...)); launder((void*)o.data()); if (o.size() == offs.size()) cmp_pick(c, o.data(), A.data(), offs, "evaluate(constA(fseq...))", d, BASE); }
         { scrub_stack(); auto o = evaluate(A(fseq<Fs::f, Fs::l, Fs::s>()...) + B(fseq<Fs::f, Fs::l, Fs::s>()...)); launder((void*)o.data());
           for (size_t j = 0; j < offs.size() && j < (size_t)o.size(); ++j) { ++c.compared; T w = A.data()[offs[j]] + B.data()[offs[j]]; if (!same_val(o.data()[j], w)) { ++c.bad; if (c.mode.empty()) { c.mode = "wrong-element-selected"; c.first_bad = "A(f...)+B(f...) " + d + " element " + std::to_string(j); } } } }
+        routes<T, Tensor<T, cext(Fs::f, Fs::l, Fs::s, (int)D)...>>(c, [&]() { return A(fseq<Fs::f, Fs::l, Fs::s>()...); }, A.data(), offs, d);
+        routes<T, Tensor<T, cext(Fs::f, Fs::l, Fs::s, (int)D)...>>(c, [&]() { return cA(fseq<Fs::f, Fs::l, Fs::s>()...); }, A.data(), offs, "const " + d);
         // the same ranges handed over as dynamic seq (fseq converts to seq): both routes must agree
         { scrub_stack(); Tensor<T, cext(Fs::f, Fs::l, Fs::s, (int)D)...> o = A(seq(fseq<Fs::f, Fs::l, Fs::s>())...); launder((void*)o.data());
           if (o.size() == offs.size()) cmp_pick(c, o.data(), A.data(), offs, "r=A(seq(fseq)...)", d, BASE); else c.fail("extents-mismatch", "size"); }
